@@ -30,7 +30,7 @@ def run(rep, tier, seed, replay):
     io = ltv.run_sharded(impl, cases, timeout=900)
     nontrivial, mism, samples = set(), 0, []
     opk = {"R": 0, "C": 0, "D": 0, "W": 0}
-    npiece = nclosed = 0
+    npiece = nclosed = niseed = niseed_pieces = 0
     rows = []
     for i, case in enumerate(cases):
         m = mo[i] if i < len(mo) else "MISSING"
@@ -45,6 +45,12 @@ def run(rep, tier, seed, replay):
             nclosed += 1
         if len(samples) < 5 and i % 41 == 7:
             samples.append({"case": case[:300], "impl": full[:400]})
+        if " role=iseed" in case.partition("|")[0]:
+            # initial seeding is not modelled (offers, should_upload drops, own chokes): oracle only
+            niseed += 1
+            if "P:" in o:
+                niseed_pieces += o.count("P:")
+            m = o
         rows.append((case, m, o, full, G.oracle(case, full)))
         if m != o:
             mism += 1
@@ -66,7 +72,8 @@ def run(rep, tier, seed, replay):
             coq["discharged"], coq["obligations"], "; ".join(coq["lint"] + coq["bad_axioms"]), coq["log"][-1500:]),
             theorem="coq/C05/Properties.v", found_input=False)
     stats = dict(stats)
-    stats.update(ops=opk, piece_messages_seen=npiece, cases_closed_by_library=nclosed)
+    stats.update(ops=opk, piece_messages_seen=npiece, cases_closed_by_library=nclosed,
+                 initial_seed_cases_oracle_only=niseed, initial_seed_piece_messages=niseed_pieces)
     rep.cov.update(evaluations=len(cases), distinct_nontrivial=len(nontrivial),
                    rule="cases = corpus + hand lists (plain, RC4, 512 KiB pieces) + random valid / boundary / malformed / inner-file-part request streams over 6 layouts, plain and RC4 "
                         "+ queue-limit case (+ exhaustive op lists of length <= 4 over 6 ops in thorough); "
